@@ -525,7 +525,7 @@ pub fn work_dir(id: &str) -> PathBuf {
 }
 
 pub fn write_replay(v: &Value) -> PathBuf {
-    let dir = Path::new(VERIF_ROOT).join("replays");
+    let dir = std::env::var("VERIF_REPLAY_DIR").map(PathBuf::from).unwrap_or_else(|_| Path::new(VERIF_ROOT).join("replays"));
     let _ = std::fs::create_dir_all(&dir);
     let sig = v["signature"].as_str().unwrap_or("");
     let id = v["property"].as_str().unwrap_or("C00");
@@ -729,7 +729,7 @@ pub fn run_check(prop: &Property, tier: Tier, seed: u64) -> CheckResult {
         "wall_s": (wall * 100.0).round() / 100.0,
         "violations": confirmed.len(),
     });
-    let edir = Path::new(VERIF_ROOT).join("evidence");
+    let edir = std::env::var("VERIF_EVIDENCE_DIR").map(PathBuf::from).unwrap_or_else(|_| Path::new(VERIF_ROOT).join("evidence"));
     let _ = std::fs::create_dir_all(&edir);
     let epath = edir.join(format!("{}.json", prop.id));
     let mut f = std::fs::File::create(&epath).expect("evidence file");
